@@ -1,7 +1,7 @@
 SPECIFICATION TSpec
 CONSTANTS
   MaxOps = 1000000
-  UnitKinds = {"set32", "set64", "getp"}
+  UnitKinds = {"set32", "set64", "getp", "getq"}
   MaxPos = 3
 CONSTRAINT Record
 POSTCONDITION Post
